@@ -160,7 +160,7 @@ func VF_C16_OtherRPCs() {
 	before := w.global()
 	var err error
 	answered := false
-	rpc := vf.Choice("rpc", 10)
+	rpc := vf.Choice("rpc", 12)
 	vf.Tag("rpc", rpc)
 	panicked, msg := vf.Try(func() {
 		switch rpc {
@@ -188,6 +188,16 @@ func VF_C16_OtherRPCs() {
 		case 9: // ... null
 			r, e := w.svc.PatchDocument(gocontext.TODO(), &model.PatchMessage{Collection: vfCol, Key: "doc", Json: `null`})
 			err, answered = e, r != nil || e != nil
+		case 10: // patch of a document whose key is the empty string: served like any other key
+			r, e := w.svc.PatchDocument(gocontext.TODO(), &model.PatchMessage{Collection: vfCol, Key: "", Json: `{"a":1}`})
+			err, answered = e, r != nil || e != nil
+		case 11: // ... whose key is very long
+			long := ""
+			for i := 0; i < 300; i++ {
+				long += "0123456789"
+			}
+			r, e := w.svc.PatchDocument(gocontext.TODO(), &model.PatchMessage{Collection: vfCol, Key: long, Json: `{"a":1}`})
+			err, answered = e, r != nil || e != nil
 		case 5: // empty push-pull message of an unregistered client
 			r, e := w.svc.ProcessPushPull(gocontext.TODO(), &model.PushPullMessage{Header: model.NewMessageHeader(model.RequestType_PUSHPULLS), Collection: vfCol, Cuid: vfCUIDx})
 			err, answered = e, r != nil || e != nil
@@ -202,7 +212,12 @@ func VF_C16_OtherRPCs() {
 	}
 	vf.Assert(!panicked, "C16 no RPC crashes the server")
 	vf.Assert(answered, "C16 every RPC is answered with a response or an error")
-	if rpc != 6 {
+	if rpc == 10 || rpc == 11 {
+		// unusual keys: answered either way; a refusal changes nothing
+		if err != nil {
+			vf.Assert(before == w.global(), "C16 a refused request changes nothing stored")
+		}
+	} else if rpc != 6 {
 		vf.Assert(err != nil, "C16 an invalid request is refused with an error")
 		vf.Assert(before == w.global(), "C16 a refused request changes nothing stored")
 	} else {
